@@ -275,3 +275,34 @@ package rsm
 
 //@ func (v *SnapshotValidator) Validate [C15]
 //@ trusted opaque for C15
+
+// ---------------------------------------------------------------- snapshot block writer (C14)
+
+// assumed contracts of the hash / io interfaces used by the block writer: they only touch
+// their own internal state
+//@ extern hash (h Hash) Sum
+//@ ensures fresh(result) || cap(result) == 0
+//@ extern hash (h Hash) Reset
+//@ extern hash (h Hash) Write
+//@ extern io (w Writer) Write
+
+// the block callback receives the block and its checksum; it may use the spare capacity of
+// data (the v2 writer appends the checksum to it) but nothing else that is visible here
+//@ func fieldfunc.BlockWriter.onNewBlock [C14]
+//@ modifies elems(data[len(data):])
+
+//@ pred (bw *BlockWriter) valid() := bw.blockSize > 0 && bw.blockSize <= 1099511627776 && bw.nextStop >= bw.blockSize &&
+//@   bw.written <= bw.nextStop && bw.nextStop - bw.written <= bw.blockSize &&
+//@   len(bw.block) == bw.written - (bw.nextStop - bw.blockSize) && cap(bw.block) >= bw.blockSize + 4 && bw.h != nil && bw.fh != nil
+
+// Write never touches the caller's buffer (frame), consumes all of it, and keeps the block
+// bookkeeping consistent: a block is emitted exactly when blockSize payload bytes are buffered
+//@ func (bw *BlockWriter) Write [C14]
+//@ requires bw.valid() && !bw.flushed
+//@ requires ptr(bs) + cap(bs) <= ptr(bw.block) || ptr(bw.block) + cap(bw.block) <= ptr(bs)
+//@ requires bw.written + len(bs) + 2 * bw.blockSize < MaxUint64
+//@ modifies bw.block, bw.written, bw.total, bw.nextStop, elems(bw.block)
+//@ ensures result1 == nil ==> result0 == len(bs) && bw.valid() && bw.written == old(bw.written) + len(bs)
+//@ loop 1 modifies bw.block, bw.written, bw.total, bw.nextStop, elems(bw.block)
+//@ loop 1 invariant bw.valid() && !bw.flushed && ptr(bw.block) == ptr(old(bw.block)) && cap(bw.block) == cap(old(bw.block)) && bw.blockSize == old(bw.blockSize)
+//@ loop 1 invariant totalN + len(bs) == len(old(bs)) && ptr(bs) == ptr(old(bs)) + totalN && cap(bs) == cap(old(bs)) - totalN && bw.written == old(bw.written) + totalN
